@@ -1,6 +1,7 @@
 """C13 — taxonomy functions (narrow: termination, parameter forwarding, a/s merging, determinism, definitional anchors)."""
 from __future__ import annotations
 import ast
+from ..pat import Frag
 from ..src import norm, walk_no_nested, AnalysisError
 from ..loops import all_whiles, classify_while, recursion_cycles
 from ..pyutil import get_arg
@@ -142,7 +143,7 @@ def r5_anchors(ctx, res):
 
     def ret_of(f):
         rets = [n for n in walk_no_nested(f.node) if isinstance(n, ast.Return)]
-        return [norm(r.value) for r in rets if r.value is not None]
+        return [Frag(r.value) for r in rets if r.value is not None]
 
     def chk(key, f, ok, msg):
         res.inst(key, f.module.loc(f.node), 'anchor')
@@ -155,7 +156,7 @@ def r5_anchors(ctx, res):
     chk('anchor:leaves', f, ret_of(f) == ['[ss for ss in _synsets_for_pos(wordnet, pos) if not ss.hyponyms()]'],
         f'leaves() returns {ret_of(f)}; leaves are the synsets of the part of speech without hyponyms')
     hp = T('_hypernym_paths')
-    src = norm(hp.node)
+    src = Frag(hp.node)
     chk('anchor:hypernym-relations', hp, "synset.relation_paths('hypernym', 'instance_hypernym')" in src,
         '_hypernym_paths no longer follows exactly the relations hypernym and instance_hypernym')
     hy = ctx.repo.func('_core', 'Synset.hypernyms')
@@ -170,7 +171,7 @@ def r5_anchors(ctx, res):
         'simulate_root no longer appends the fake root to every path (and a lone [root] path for root synsets)')
     for name in ('_shortest_hyp_paths', 'common_hypernyms'):
         f = T(name)
-        s = norm(f.node)
+        s = Frag(f.node)
         chk(f'anchor:{name}:ancestors-include-self', f,
             '_hypernym_paths(synset, simulate_root, True)' in s and '_hypernym_paths(other, simulate_root, True)' in s,
             f'{name} no longer computes both ancestor sets with include_self=True')
@@ -184,7 +185,7 @@ def r5_anchors(ctx, res):
         want = f'{fn}((len(path) for path in synset.hypernym_paths(simulate_root=simulate_root)), default=0)'
         chk(f'anchor:{name}', f, ret_of(f) == [want], f'{name} returns {ret_of(f)}; expected {want}')
     f = T('shortest_path')
-    s = norm(f.node)
+    s = Frag(f.node)
     chk('anchor:shortest_path:error', f, any(isinstance(n, ast.Raise) and 'wn.Error' in norm(n) for n in walk_no_nested(f.node))
         and 'if key is None' in s, 'shortest_path no longer raises wn.Error when the synsets share nothing')
     chk('anchor:shortest_path:min', f, 'min(pathmap, key=lambda key: len(pathmap[key]), default=None)' in s,
@@ -192,7 +193,7 @@ def r5_anchors(ctx, res):
     chk('anchor:shortest_path:drops-start', f, ret_of(f) == ['pathmap[key][1:]'], f'shortest_path returns {ret_of(f)}; expected the '
         f'combined path without the start synset')
     f = T('_shortest_hyp_paths')
-    s = norm(f.node)
+    s = Frag(f.node)
     chk('anchor:shortest:identity', f, 'if synset == other' in s and 'return {(synset, 0): []}' in s,
         '_shortest_hyp_paths no longer returns the empty path for identical synsets')
     chk('anchor:shortest:subpaths', f, 'min(from_self_subpaths, key=len)' in s and 'min(from_other_subpaths, key=len)[-2::-1]' in s,
@@ -200,11 +201,11 @@ def r5_anchors(ctx, res):
     chk('anchor:shortest:depth', f, 'depth = len(path) - dist - 1' in s and 'depths[ss] < depth' in s,
         '_shortest_hyp_paths no longer records the maximum depth of each common hypernym')
     f = T('lowest_common_hypernyms')
-    s = norm(f.node)
+    s = Frag(f.node)
     chk('anchor:lch', f, 'max([depth for _, depth in pathmap], default=-1)' in s and '[ss for ss, d in pathmap if d == max_depth]' in s,
         'lowest_common_hypernyms no longer returns the common hypernyms of greatest depth')
     f = T('taxonomy_depth')
-    s = norm(f.node)
+    s = Frag(f.node)
     chk('anchor:taxonomy_depth', f, 'depth = max(depth, max((len(path) for path in paths)))' in s and 'ss.hypernym_paths()' in s,
         'taxonomy_depth is no longer the longest hypernym path of the part of speech')
 
